@@ -36,6 +36,7 @@ import (
 	"istio.io/istio/pkg/config/schema/collections"
 	"istio.io/istio/pkg/config/schema/gvk"
 	"istio.io/istio/pkg/config/validation"
+	"istio.io/istio/pilot/pkg/serviceregistry/provider"
 	_ "verifharness/internal/quiet"
 	"verifharness/internal/wire"
 )
@@ -72,6 +73,10 @@ type sut struct {
 	providers []string
 	multi     bool
 	proxyType model.NodeType
+	// NewBuilderForService: the service the chain is built for (name, namespace, registry k8s | ext); nil = none
+	svc *[3]string
+	// NewWaypointTerminationBuilder (HBONE termination layer of a waypoint): standard selection, no filter state
+	term bool
 	// ONE pair of plugin builders (CUSTOM, Local) per case and useFilterState value, reused by every build op
 	// of the case exactly as the listener builder reuses them (lazy cache of BuildTCP / BuildHTTP)
 	builders map[bool][2]*authzplugin.Builder
@@ -229,6 +234,24 @@ func (s *sut) newBuilders(useAuth bool) [2]*authzplugin.Builder {
 	}
 	proxy := &model.Proxy{Type: s.proxyType, ConfigNamespace: s.wlNS, Labels: s.wlLabels, Metadata: &model.NodeMetadata{}}
 	features.EnableMultipleCustomAuthzProviders = s.multi
+	if s.term {
+		return [2]*authzplugin.Builder{
+			authzplugin.NewWaypointTerminationBuilder(authzplugin.Custom, push, proxy),
+			authzplugin.NewWaypointTerminationBuilder(authzplugin.Local, push, proxy),
+		}
+	}
+	if s.svc != nil {
+		reg := provider.Kubernetes
+		if s.svc[2] != "k8s" {
+			reg = provider.External
+		}
+		svc := &model.Service{Hostname: host.Name(s.svc[0] + "." + s.svc[1] + ".svc.cluster.local"),
+			Attributes: model.ServiceAttributes{Name: s.svc[0], Namespace: s.svc[1], ServiceRegistry: reg}}
+		return [2]*authzplugin.Builder{
+			authzplugin.NewBuilderForService(authzplugin.Custom, push, proxy, !useAuth, svc),
+			authzplugin.NewBuilderForService(authzplugin.Local, push, proxy, !useAuth, svc),
+		}
+	}
 	return [2]*authzplugin.Builder{
 		authzplugin.NewBuilder(authzplugin.Custom, push, proxy, !useAuth),
 		authzplugin.NewBuilder(authzplugin.Local, push, proxy, !useAuth),
@@ -294,6 +317,15 @@ func (s *sut) apply(f []string) (out string) {
 		}
 		if len(f) > 4 && f[4] == "router" {
 			s.proxyType = model.Router
+		}
+		if len(f) > 4 && f[4] == "waypoint" {
+			s.proxyType = model.Waypoint
+		}
+		s.term = len(f) > 6 && f[6] == "term"
+		if len(f) > 5 {
+			if q := strings.Split(wire.Dec(f[5]), "|"); len(q) == 3 && !s.term {
+				s.svc = &[3]string{q[0], q[1], q[2]}
+			}
 		}
 		return "ok"
 	case "custom":
